@@ -11,7 +11,7 @@ TYPE_RANGE = {
     "i8": (-128, 127), "i16": (-32768, 32767), "i32": (-2 ** 31, 2 ** 31 - 1), "i64": (-2 ** 63, 2 ** 63 - 1), "isize": (-2 ** 63, 2 ** 63 - 1),
     "i128": (-2 ** 127, 2 ** 127 - 1), "bool": (0, 1), "char": (0, 0x10FFFF),
 }
-LEN_MAX = 2 ** 63 - 1
+LEN_MAX = 2 ** 62          # stated assumption: no slice/Vec/str in memory is longer than 2^62 (64-bit address spaces are <= 2^57)
 
 
 class Lin:
@@ -181,7 +181,7 @@ class Store:
         rows = []
         for c in rel:
             rows.append((dict(c.t), Fraction(c.c)))
-        for s in syms:
+        for s in sorted(syms):
             a, b = self.ranges.get(s, (None, None))
             if a is not None:
                 rows.append(({s: -1}, Fraction(a)))        # -s + a <= 0
